@@ -79,6 +79,9 @@ func TestC06_Controlled(t *testing.T) {
 			ViaRefresh: rapid.SampledFrom([]bool{false, false, true}).Draw(t, "viaRefresh"),
 			Layout:     rapid.SampledFrom([]bool{false, false, true}).Draw(t, "layout"),
 		}
+		if !setup.ViaRefresh {
+			setup.Restart = rapid.IntRange(0, 2).Draw(t, "restart") == 0
+		}
 		switch rapid.IntRange(0, 2).Draw(t, "occ") {
 		case 0:
 			setup.Prefill = setup.Size + 1
